@@ -208,7 +208,9 @@ def rule_framecall(ctx):
         if same and sr.op == "call" and call_name(sr) == "builtins.slice" and len(sr.a[1]) == 2:
             lo, hi = sr.a[1]
             # slice(k*hop, k*hop + window)
-            shape = lo.op == "bin" and lo.a[0] == "*" and "hop" in tm.params_of(lo) and hi.op == "bin" and hi.a[0] == "+" and any(z is lo for z in (hi.a[1], hi.a[2])) and any(z.op == "param" and z.a[0] == "window" for z in (hi.a[1], hi.a[2]))
+            # (the step is the caller's hop itself: k * hop with hop the parameter, not min(hop, window) or the like)
+            hop_raw = lo.op == "bin" and lo.a[0] == "*" and any(z.op == "param" and z.a[0] == "hop" for z in lo.a[1:]) and any(z.op in ("iter", "idx") for z in lo.a[1:])
+            shape = hop_raw and lo.op == "bin" and lo.a[0] == "*" and "hop" in tm.params_of(lo) and hi.op == "bin" and hi.a[0] == "+" and any(z is lo for z in (hi.a[1], hi.a[2])) and any(z.op == "param" and z.a[0] == "window" for z in (hi.a[1], hi.a[2]))
         yield ob(R, f, "%s:same-window" % q, same and shape, "reference and estimate are cut with the same slice(k*hop, k*hop + window)", node=c.node)
         yield ob(R, f, "%s:permutation-flag" % q, perm is not None and perm.op == "param" and perm.a[0] == "compute_permutation", "the caller's compute_permutation is passed to every window", node=c.node)
         # results of the window call go to column k of each buffer, in order
